@@ -3,7 +3,7 @@
    property's clauses (a)-(g); (h)/(i) are checked on the serialised text by the harness. *)
 From Coq Require Import List NArith Bool.
 From RPFT Require Import Base.Sexp Base.PyStr Base.Result Gen.Tables Flow.Flow Flow.Closed Flow.NodeIdCheck Flow.NodeIdCheckFacts
-     Flow.RowSem Comp.Compile Comp.CompileClosed Comp.CompileExamples Comp.CompileExampleFacts.
+     Flow.RowSem Comp.Compile Comp.CompileClosed Comp.CompileDistinct Comp.CompileExamples Comp.CompileExampleFacts.
 Import ListNotations.
 
 Theorem C01_closedb_spec : forall G d, closedb G d = true <-> Closed G d.
@@ -88,6 +88,36 @@ Theorem C01_compile_no_sentinel : forall fresh validate name rows f,
   forall nd e, In nd (f_nodes f) -> In e (n_exits nd) -> e_dest e <> Some hard_exit_sentinel.
 Proof. exact compile_no_sentinel. Qed.
 Print Assumptions C01_compile_no_sentinel.
+
+(* (g) the identifiers at defining positions (flow, node, action, exit, category, case) of a compiled flow are
+   pairwise distinct - given that no `_nodeId` of the rows is an identifier the supply hands out *)
+Theorem C01_compile_def_ids_distinct : forall fresh, (forall a b : nat, fresh a = fresh b -> a = b) ->
+  forall validate name rows f, (forall us, validate us = None -> NoDup us) ->
+  (forall cr k, In cr rows -> cr_uuid cr <> fresh k) ->
+  compile_with fresh validate name rows = Ok f -> NoDup (flow_def_ids f).
+Proof. exact compile_def_ids_distinct. Qed.
+Print Assumptions C01_compile_def_ids_distinct.
+
+(* all of (a)-(g): the document checker accepts the compiled flow, for every set G of given identifiers that holds
+   the rows' `_nodeId`s and none of the supply's, when the identifiers the run draws are RFC-4122 v4 strings *)
+Theorem C01_compile_doc_closed : forall fresh, (forall a b : nat, fresh a = fresh b -> a = b) ->
+  forall G name rows f,
+  (forall k, k < compile_draws fresh rows -> is_uuid4 (fresh k) = true) -> (forall k, ~ In (fresh k) G) ->
+  (forall cr, In cr rows -> cr_uuid cr <> [] -> In (cr_uuid cr) G) ->
+  compile_checks_node_uuids = true -> compile fresh name rows = Ok f -> closedb G [f] = true.
+Proof. exact compile_doc_closed. Qed.
+Print Assumptions C01_compile_doc_closed.
+
+(* its hypotheses are satisfiable: a supply of version-4 uuid strings, a sheet with two given `_nodeId`s *)
+Example C01_compile_doc_closed_nonvacuous :
+  (forall a b, uuid_fresh a = uuid_fresh b -> a = b)
+  /\ (forall k, k < compile_draws uuid_fresh ex_given -> is_uuid4 (uuid_fresh k) = true)
+  /\ (forall k, ~ In (uuid_fresh k) ex_given_ids)
+  /\ (forall cr, In cr ex_given -> cr_uuid cr <> [] -> In (cr_uuid cr) ex_given_ids)
+  /\ length ex_given_ids = 2
+  /\ exists f, compile uuid_fresh ex_name ex_given = Ok f /\ length (f_nodes f) = 3 /\ closedb ex_given_ids [f] = true.
+Proof. exact compile_doc_closed_example. Qed.
+Print Assumptions C01_compile_doc_closed_nonvacuous.
 
 (* the statement without the validation is false of the faithful model: two router rows with one `_nodeId` *)
 Theorem C01_compile_closed_unvalidated_refuted :
